@@ -585,6 +585,31 @@ func run(r *vt.Run, t vt.TB, s spec) {
 		violation("read-with-hot-journal", "%s returned without error although the journal of a crashed transaction is present", s.Op)
 	}
 	lockLost = ""
+	if s.Writer == "raw-exclusive" && !violated {
+		// the ordinary retry after a refused read: the other process has let
+		// go, the same handle reads again, and this read has to hold the lock
+		trace.Hook = nil
+		fault.K = 0 // (no injected fault in the retry)
+		first := true
+		rerr := hl.Select("t", func(sqlittle.Row) {
+			if first {
+				first = false
+				checkHeld("first row callback of the read retried after a refused one")
+				commitAttempt(true, "first row callback of the read retried after a refused one")
+			}
+		}, "a")
+		if rerr != nil {
+			violation("retry-fails", "Select on the same handle after the foreign write lock is gone: %v", rerr)
+		}
+		classes["retry-after-refused-read"] = true
+		st, err := probe.Probe(path)
+		if err != nil {
+			r.Harness(t, "probe: %v", err)
+		}
+		if (st.Shared.Type != "none" && st.Shared.Pid == mypid) || (st.Pending.Type != "none" && st.Pending.Pid == mypid) {
+			violation("lock-left-behind", "the read retried after a refused one returned but this process still holds %s", st)
+		}
+	}
 	// I4': writers can proceed
 	commitAttempt(false, fmt.Sprintf("after %s(%s exit)", s.Op, s.Exit))
 	if second != nil {
